@@ -16,6 +16,11 @@ if [ ! -x "$HERE/bin/simrewrite" ] || [ "$HERE/simrewrite/main.go" -nt "$HERE/bi
   (cd "$HERE/simrewrite" && go build -o "$HERE/bin/simrewrite" .) || { echo "build.sh: cannot build simrewrite" >&2; exit 2; }
 fi
 (cd "$SCR/repo" && "$HERE/bin/simrewrite" "$SCR/repo" ./pkg/scheduler/... ./pkg/builder/... ./pkg/blobstore/... ./pkg/cas/... ./pkg/cleaner/... ./pkg/clock/... ./pkg/sync/... ./pkg/filesystem/... ./pkg/runner/... ./pkg/util/...) || { echo "build.sh: simrewrite failed" >&2; exit 2; }
+COVER=()
+if [ -n "${VERIF_COVER:-}" ]; then
+  # reach report: statement coverage of the repository's own packages (not of the simulator)
+  COVER=(-cover -covermode=set -coverpkg=./pkg/scheduler/...,./pkg/builder/...,./pkg/blobstore/...,./pkg/cas/...,./pkg/cleaner/...,./pkg/clock/...,./pkg/sync/...,./pkg/filesystem/...,./pkg/runner/...,./pkg/util/...)
+fi
 for w in "$@"; do
-  (cd "$SCR/repo" && go test -c -tags verif -vet=off -o "$SCR/$w.test" ./pkg/verifsim/$w) || { echo "build.sh: building world $w failed" >&2; exit 2; }
+  (cd "$SCR/repo" && go test -c -tags verif -vet=off "${COVER[@]}" -o "$SCR/$w.test" ./pkg/verifsim/$w) || { echo "build.sh: building world $w failed" >&2; exit 2; }
 done
